@@ -571,8 +571,9 @@ parse_mip_page(vbi_decoder *vbi, cache_page *vtp,
 				    [(*subp_index % 13) * 3 + 1];
 		(*subp_index)++;
 
+		/* No shift, the value is negative on errors. */
 		if ((subc = vbi_unham16p (raw)
-		     | (vbi_unham8 (raw[2]) << 8)) < 0)
+		     | (vbi_unham8 (raw[2]) * 256)) < 0)
 			return FALSE;
 
 		if ((code & 15) == 1)
